@@ -10,6 +10,8 @@ ALPH = G.alphabet(html=False, amp=True, ext=False, ctrl=False, refs=True) + ['\x
 
 def gen(rng):
     r = rng.random()
+    if r < 0.15: return G.inline_doc(rng).replace('<', '')
+    r = rng.random()
     if r < 0.55: s = G.soup(rng, ALPH, 1, 18)
     elif r < 0.75: s = G.lines_doc(rng, 1, 8)
     elif r < 0.9: s = G.fragment(rng, 140)
